@@ -123,6 +123,17 @@ def _case(args):
                 decoy = (np.arange(M.size, dtype=np.float32).reshape(M.shape) % 3) + 0.25
                 a = anndata.AnnData(X=decoy, obs=obs, var=var, layers={'raw': X})
             a.write_h5ad(src)
+        if enc != 'dense' and seed % 3 == 1:
+            # the sparse arrays stored contiguously (h5py's default; what writers other than a recent anndata produce)
+            import h5py
+            with h5py.File(src, 'a') as f:
+                grp = f['X' if s['layerIsX'] else 'layers/raw']
+                for k in ('data', 'indices', 'indptr'):
+                    arr, attrs = grp[k][()], dict(grp[k].attrs)
+                    del grp[k]
+                    new = grp.create_dataset(k, data=arr)
+                    for kk, vv in attrs.items():
+                        new.attrs[kk] = vv
         digest0 = hashlib.sha256(open(src, 'rb').read()).hexdigest()
         dst = os.path.join(d, 'out.h5ad')
         os.makedirs(os.path.join(d, 'scratch'))
@@ -133,7 +144,8 @@ def _case(args):
                 warnings.simplefilter('ignore')
                 ret = validate_h5ad(src, gene_id_mapper=GeneIdMapper(data=dict(MAPPER)),
                                     tmp_dir=os.path.join(d, 'scratch'), layer='X' if s['layerIsX'] else 'raw',
-                                    round_to_int=s['round'], valid_h5ad_path=dst, expected_max=None)
+                                    round_to_int=s['round'], valid_h5ad_path=dst,
+                                    expected_max=(20 if seed % 2 == 0 else None))
         except Exception as e:
             raised = f'{type(e).__name__}: {str(e)[:200]}'
         if hashlib.sha256(open(src, 'rb').read()).hexdigest() != digest0:
